@@ -29,8 +29,13 @@ build_variant() {
     cp "$ROOT/harness/go.sum" "$ROOT/.bin/alt.sum"
     modfile=(-modfile="$ROOT/.bin/alt.mod")
   fi
-  ( cd "$ROOT/harness" && go build "${modfile[@]}" "${args[@]}" -o "$out" ./cmd/vcheck ) 2>"$ROOT/.bin/build-$v.log"
+  # one build at a time: concurrent checks share the binaries
+  (
+    if command -v flock >/dev/null 2>&1; then exec 9>"$ROOT/.bin/build.lock"; flock 9; fi
+    cd "$ROOT/harness" && go build "${modfile[@]}" "${args[@]}" -o "$out" ./cmd/vcheck 2>"$ROOT/.bin/build-$v.$$.log"
+  )
   local rc=$?
+  mv -f "$ROOT/.bin/build-$v.$$.log" "$ROOT/.bin/build-$v.log" 2>/dev/null
   if [ $rc -ne 0 ]; then
     echo "BUILD-FAILED variant=$v (see $ROOT/.bin/build-$v.log)" >&2
     tail -n 30 "$ROOT/.bin/build-$v.log" >&2
